@@ -1,6 +1,8 @@
 package main
 
 import (
+	"os/signal"
+	"syscall"
 	"encoding/json"
 	"flag"
 	"fmt"
@@ -28,6 +30,8 @@ type obSummary struct {
 	Solvers   []string `json:"solvers"`
 	TimeS     float64  `json:"solver_time_s"`
 }
+
+var cleanupDir string
 
 func main() {
 	repo := flag.String("repo", "/repo", "repository root")
@@ -127,13 +131,22 @@ func main() {
 		}
 	}
 	dir := *keep
+	keepSMT = dir != ""
 	if dir == "" {
 		dir, err = os.MkdirTemp("", "govc-smt-")
 		if err != nil {
 			fmt.Fprintln(os.Stderr, err)
 			os.Exit(2)
 		}
+		cleanupDir = dir
 		defer os.RemoveAll(dir)
+		sigc := make(chan os.Signal, 1)
+		signal.Notify(sigc, syscall.SIGINT, syscall.SIGTERM, syscall.SIGHUP)
+		go func() {
+			<-sigc
+			os.RemoveAll(dir)
+			os.Exit(2)
+		}()
 	} else {
 		os.MkdirAll(dir, 0o755)
 	}
@@ -367,6 +380,9 @@ func main() {
 	}
 	if *cpuprof != "" {
 		pprof.StopCPUProfile()
+	}
+	if cleanupDir != "" {
+		os.RemoveAll(cleanupDir)
 	}
 	os.Exit(exit)
 }
